@@ -270,7 +270,8 @@ func restoreChunk(ctx context.Context, ndb db.NodeDB, chunk *ChunkMetadata, r io
 	hb := hash.NewBuilder()
 	tr := io.TeeReader(r, hb)
 	sr := snappy.NewReader(tr)
-	dec := cbor.NewDecoder(sr)
+	// The chunk is a bounded stream, make sure decoding does not depend on its fragmentation.
+	dec := cbor.NewDecoder(cbor.NewFullReader(sr))
 
 	// Reconstruct the proof.
 	var decodeErr error
